@@ -38,7 +38,8 @@ THEOREMS = [P + t for t in (
     "guarded_api_quiescent", "unguarded_failure_skips_exit",
     "no_timer_after_exit", "exit_returns_callbacks_drain", "interpreter_can_exit",
     "api_leaves_nothing_behind", "silent_simple_trivial", "legacy_protocol_leaks",
-    "all_spawns_covered", "executors_leave_no_worker", "stored_executor_leaks")]
+    "all_spawns_covered", "executors_leave_no_worker", "stored_executor_leaks",
+    "exit_never_suppresses", "failure_reaches_caller", "truthy_exit_swallows")]
 
 PTYPES = ["silent", "simple", "bar"]
 WAIT = 120.0         # seconds the scheduler waits for a gated thread (infrastructure limit)
@@ -55,6 +56,7 @@ class ApiObservation:
         self.extra_threads = [] # alive non-main threads the instrumentation did not attribute
         self.pools = []         # one dict per executor pool the library created
         self.fault_calls = {}
+        self.fault_fired = False
 
 
 def _state_char(t):
@@ -171,6 +173,8 @@ def run_api_case(build, ptype, kind, at):
         U.Timer = saved_timer
         CF.ThreadPoolExecutor, CF.ProcessPoolExecutor = saved_pools
         obs.fault_calls = {k: f.calls for k, f in faults.items()}
+        obs.fault_fired = bool(kind is not None and at is not None
+                               and faults[kind].at is not None and faults[kind].calls >= at)
         for f in faults.values():
             f.disarm()
     # drain: a cancelled timer thread ends at once (the generous limit only matters on a
@@ -332,11 +336,13 @@ def correspondence_api(res, tier, rng, table, spawns=()):
             nupd = calls.count("u")
             if "x" in calls and not o["exceptional_exit"]:
                 line = "api %s %d %s %d none" % (func, idx, eff, nupd)
+                prop = 0
             else:
                 line = "api %s %d %s %d %d" % (func, idx, eff, nupd + 1, nupd)
+                prop = int(obs.raised is not None)     # did the failure reach the caller
             lines.append(line)
-            expect.append("calls=%s exit=%d alive=%d blocks=%d tm=%s fin=1" % (
-                ",".join(calls), int("x" in calls), o["alive"], o["blocks"], o["tm"]))
+            expect.append("calls=%s exit=%d alive=%d blocks=%d tm=%s fin=1 prop=%d" % (
+                ",".join(calls), int("x" in calls), o["alive"], o["blocks"], o["tm"], prop))
             meta.append({"runner": name, "fault": kind, "at": at, "progress_type": ptype,
                          "raised": obs.raised, "func": func, "index": idx})
     not_hit = sorted(set((r["func"], r["index"]) for r in table) - hit)
@@ -740,6 +746,8 @@ def check_api_payload(p):
                        p.get("at"))
     if obs.alive_names:
         return {"alive_threads_after_call": obs.alive_names, "raised": obs.raised}
+    if obs.fault_fired and obs.raised is None:
+        return {"exception_swallowed": True}
     return None
 
 
@@ -894,6 +902,14 @@ def search(res, rng=None):
         before = set(threading.enumerate())
         obs = run_api_case(runners[name][1], ptype, kind, at)
         eff = U.PROGRESS_TYPE if ptype is None else ptype
+        if obs.fault_fired and obs.raised is None:
+            res.fail("exception-swallowed:%s:%s" % (name, eff),
+                     {"type": "api", "runner": name, "fault": kind, "at": at,
+                      "progress_type": ptype, "raised": None,
+                      "progress_calls": [o["calls"] for o in obs.objects],
+                      "how": "oq.c19_runners()[%r]: the %r callable raised InjectedFault at its "
+                             "invocation %r, yet the call with progress_type=%r returned "
+                             "normally" % (name, kind, at, ptype)})
         if obs.alive_names:
             # which progress object lost its timer
             culprit = None
@@ -921,6 +937,12 @@ def search(res, rng=None):
     # the progress classes themselves, with the argument kinds the call sites pass
     for (key, vname, v, title, fail_at) in progress_direct_cases():
         r = run_progress_direct(key, v, title, fail_at)
+        if fail_at is not None and r["raised"] is None:
+            res.fail("exception-swallowed:get_progress:%s" % key,
+                     dict(r, type="direct", progress_type=key, max_value=repr(v), title=title,
+                          fail_at=fail_at,
+                          how="with oqupy.util.get_progress(%r)(%r, %r) as bar: RuntimeError "
+                              "raised inside the block did not leave the block" % (key, v, title)))
         if r["exit_calls"] != 1 or r["alive_threads"]:
             res.fail("progress-direct:%s:max_value=%s" % (key, vname),
                      dict(r, type="direct", progress_type=key, max_value=repr(v), title=title,
